@@ -107,6 +107,25 @@ pub fn impl_answer(case: &Case) -> String {
             let spec = CtxSpec::from_sx(&payload[0]).expect("bad ctx");
             eval_on_impl(&spec, case.src.as_deref(), payload.get(1))
         }
+        "cmp2" => {
+            let a = sx_to_value(&payload[0]).expect("bad value");
+            let b = sx_to_value(&payload[1]).expect("bad value");
+            let r = quietly(|| {
+                catch_unwind(AssertUnwindSafe(|| {
+                    format!("(cmp2 {} {} {} {})", (a == b) as u8, (b == a) as u8, ord_atom(a.partial_cmp(&b)), ord_atom(b.partial_cmp(&a)))
+                }))
+            });
+            r.unwrap_or_else(|_| "(panic)".to_string())
+        }
+        "evalpair" => {
+            let spec = CtxSpec::from_sx(&payload[0]).expect("bad ctx");
+            let srcs: Vec<String> = case.src.clone().unwrap_or_default().split('\u{1}').map(String::from).collect();
+            format!(
+                "(pair {} {})",
+                eval_on_impl(&spec, srcs.first().map(|s| s.as_str()), payload.get(1)),
+                eval_on_impl(&spec, srcs.get(1).map(|s| s.as_str()), payload.get(2))
+            )
+        }
         "refs" | "refexec" => {
             let src = case.src.clone().unwrap_or_default();
             let spec = if case.kind == "refexec" { CtxSpec::from_sx(&payload[0]) } else { None };
@@ -195,6 +214,15 @@ pub fn normalize_unordered(ans: &str) -> String {
         out.push(x.to_text());
     }
     out.join(" ")
+}
+
+/// Two programs against one context (both call styles of a function).
+pub fn evalpair_case(spec: &CtxSpec, src1: &str, src2: &str) -> Option<Case> {
+    let p = |s: &str| quietly(|| catch_unwind(|| cel_parser::Parser::new().parse(s))).ok()?.ok();
+    let (a, b) = (p(src1)?, p(src2)?);
+    let mut c = Case::new("evalpair", format!("{} {} {}", spec.to_sx().to_text(), expr_to_sx(&a).to_text(), expr_to_sx(&b).to_text()));
+    c.src = Some(format!("{src1}\u{1}{src2}"));
+    Some(c)
 }
 
 /// Compile `src` with the real parser and build the `eval` case whose payload carries the AST
